@@ -575,7 +575,10 @@ def r_rid_roundtrip(model, rep):
     for at in (False, True):
         sc = facts.Scenario(gcx, atoms={has_at: at})
         calls = [(ev, h) for ev, h in sc.events("call") if ev.value[1] == ("global", "_parse_release_id_part")]
-        args = sorted((T.show(T.degate(sc.term(ev.raw[2][0]))), tuple(sorted((k, T.show(v)) for k, v in ev.raw[3]))) for ev, h in calls if h is not False)
+        def prefix_of(call):
+            a = facts.arg_of(call, "prefix", 1)
+            return () if a is None else (("prefix", T.show(a)),)
+        args = sorted((T.show(T.degate(sc.term(ev.raw[2][0]))), prefix_of(ev.raw)) for ev, h in calls if h is not False)
         if at:
             want_calls = sorted([(T.show(("idx", sp, 0)), ()), (T.show(("idx", sp, 1)), (("prefix", "'bp_'"),))])
         else:
@@ -584,7 +587,7 @@ def r_rid_roundtrip(model, rep):
         if at:
             ok = ok and live == want_calls
         else:
-            ok = ok and [a for a in live if a[1] == ()] == want_calls and not [ev for ev, h in calls if h is True and ev.raw[3]]
+            ok = ok and [a for a in live if a[1] == ()] == want_calls and not [ev for ev, h in calls if h is True and prefix_of(ev.raw)]
     rep.ob("R-RID-ROUNDTRIP", "parse_release_id:base-product-split", ok, site=gcx.site(g.node),
            msg="" if ok else "parse_release_id must split once on '@' and parse the release part and the base-product part (prefix 'bp_') "
                              "with the same part parser")
@@ -669,7 +672,7 @@ def r_rid_result(model, rep):
 
     def is_part(t, prefixed):
         t = T.unwrap(t)
-        return t[0] == "call" and t[1] == ("global", "_parse_release_id_part") and bool(t[3]) == prefixed
+        return t[0] == "call" and t[1] == ("global", "_parse_release_id_part") and (facts.arg_of(t, "prefix", 1) is not None) == prefixed
     rets = [ev for ev in gcx.events if ev.kind == "return"]
     upd = [ev for ev in gcx.events if ev.kind == "call" and ev.value[1][0] == "attr" and ev.value[1][2] == "update"
            and is_part(ev.value[1][1], False) and len(ev.value[2]) == 1 and is_part(ev.value[2][0], True)]
